@@ -3,7 +3,8 @@
 # Applies a seeded change to a dedicated scratch worktree of /repo (so that /repo itself stays clean for
 # development), runs the check against it with its own build directory, and reverts.
 patch=$1; id=$2; tier=${3:-quick}
-SR=/tmp/wt/seedrepo
+SLOT=${SLOT:-}
+SR=/tmp/wt/seedrepo$SLOT
 if [ ! -d $SR/.git ] && [ ! -f $SR/.git ]; then git -C /repo worktree add --detach $SR HEAD >/dev/null 2>&1 || { echo "cannot create $SR"; exit 4; }; fi
 cd $SR || { echo "no $SR"; exit 4; }
 [ "$(pwd)" = "$SR" ] || exit 4
@@ -11,7 +12,7 @@ git checkout -q --detach "$(git -C /repo rev-parse HEAD)" && git checkout -q -- 
 if ! git apply --check "$patch" 2>/dev/null; then echo "SEED $patch: does not apply"; exit 3; fi
 git apply "$patch" || exit 3
 cp /verif/evidence/$id.json /tmp/seed_ev.$$ 2>/dev/null
-( cd /verif && VERIF_REPO=$SR VERIF_BUILD=/tmp/wt/seedbuild timeout 3000 ./check "$id" --tier "$tier" > /tmp/seed_out.$$ 2>&1 ); rc=$?
+( cd /verif && VERIF_REPO=$SR VERIF_BUILD=/tmp/wt/seedbuild$SLOT timeout 3000 ./check "$id" --tier "$tier" > /tmp/seed_out.$$ 2>&1 ); rc=$?
 git -C $SR checkout -q -- .
 # the evidence file written by this run describes the mutated tree: put the previous one back
 [ -f /tmp/seed_ev.$$ ] && mv /tmp/seed_ev.$$ /verif/evidence/$id.json
